@@ -12,6 +12,7 @@ package main
 //	R <ok|err|closed|toolong> rd=<bytes per read, e = io.EOF> cache=<len> tr=<allocator/conn events>
 
 import (
+	"bytes"
 	"errors"
 	"fmt"
 	"io"
@@ -84,6 +85,7 @@ func execBody(e *lp.Exec, cline string, lines []string, tr *track.Tracker, lg *n
 	p := nbhttp.NewParser(rc, engine, proc, false, nil)
 	closed := false
 	dead := false
+	var fed []byte
 	var key strings.Builder
 	nontrivial := false
 	for _, l := range lines {
@@ -110,7 +112,19 @@ func execBody(e *lp.Exec, cline string, lines []string, tr *track.Tracker, lg *n
 			if res == "err" || res == "toolong" {
 				dead = true // the engine closes the connection on a parse error: only X makes sense now
 			}
+			if res != "closed" && res != "toolong" { // those two return before the segment is taken
+				fed = append(fed, seg...)
+			}
 			if !closed {
+				// read-side check (no allocator can see a copy FROM a freed buffer): what the parser keeps must be
+				// the unparsed tail of what it was fed, byte for byte. A tail copied out of freed memory carries the
+				// tracker's poison / junk instead.
+				if h := p.VerifCached(); h != nil {
+					if id, live := tr.IDOf(h); live && !bytes.HasSuffix(fed, *h) {
+						poison := bytes.Count(*h, []byte{0xDB})
+						e.Oracle("c11-use-after-free", "Parser.bytesCached (buffer #%d, %d bytes) is not the unparsed tail of the input: it was filled from memory that had already been returned to the pool (%d poison bytes) | body case", id, len(*h), poison)
+					}
+				}
 				var owners []track.Owner
 				owners = append(owners, track.Owner{Name: "Parser.bytesCached", Handle: p.VerifCached()})
 				if br := nbhttp.VerifPendingBody(proc); br != nil {
